@@ -68,9 +68,9 @@ def Item.ok : Item → Bool
   | .bytes w bs => w.fits bs.length && bs.length < 9223372036854775808
   | .text w bs => w.fits bs.length && bs.length < 9223372036854775808
   | .arr w xs => w.fits xs.length && xs.length < 9223372036854775808 && okList xs
-  | .arrIndef xs => okList xs
+  | .arrIndef xs => decide (xs.length < 9223372036854775808) && okList xs
   | .map w ms => w.fits ms.length && ms.length < 9223372036854775808 && okMems ms
-  | .mapIndef ms => okMems ms
+  | .mapIndef ms => decide (ms.length < 9223372036854775808) && okMems ms
   | _ => true
 def okList : List Item → Bool
   | [] => true
